@@ -1,5 +1,6 @@
 mod apgen;
 mod c01;
+mod c02;
 mod c03;
 mod c04;
 mod c05;
@@ -49,6 +50,7 @@ fn main() {
         let v: serde_json::Value = serde_json::from_str(&txt).expect("replay file is JSON");
         let code = match v["property"].as_str().unwrap_or("") {
             "C17" => c17::replay(&v),
+            "C02" => c02::replay(&v),
             "C15" => c15::replay(&v),
             "C14" => c14::replay(&v),
             "C13" => c13::replay(&v),
@@ -65,6 +67,10 @@ fn main() {
     }
     if args[0] == "c12w" {
         std::process::exit(c12::worker(&args[1..]));
+    }
+    if args[0] == "c02dbg" {
+        c02::debug_parse(&args[1], &args[2]);
+        return;
     }
     if args[0] == "show" {
         // mc show <file.prql> : RQ JSON and SQL for the executable targets (debug aid)
@@ -102,6 +108,7 @@ fn main() {
     }
     let code = match id.as_str() {
         "C01" => c01::run(tier),
+        "C02" => c02::run(tier),
         "C03" => c03::run(tier),
         "C04" => c04::run(tier),
         "C05" => c05::run(tier),
